@@ -38,10 +38,10 @@ CHECKS = {
     'C07': ('other', 'evaluation of Ord::cmp / partial_cmp of Tx to its lexicographic chain of compared keys (through match, then/then_with, helpers); must-precede (dominator) sort-before-split; loop-carried definition of the read index; header normalisation provenance; index-stability taint',
             'R7a Tx order = (settlement_date, read_index) with read_index only on Equal; R7b sort dominates split_txs_by_security with no mutation in between '
             'and an order-preserving split; R7c the read index is carried across files and incremented per record; R7d header cells are lower-cased and '
-            'trimmed before lookup and column indices are positions in the unfiltered row; R7e nothing re-orders or drops the file list between the arguments and the readers. ' + PARTIAL % 'C07'),
+            'trimmed before lookup and column indices are positions in the unfiltered row; R7e nothing re-orders or drops the file list between the arguments and the readers; R7f every call that arranges a sequence of Tx / TxDelta is a stable sort by that same order. ' + PARTIAL % 'C07'),
     'C08': ('other', 'loop-exit and loop-carried-state rules on per-security loops + argument provenance + global-writer census over MIR',
             'R8a no early exit from any loop driven by a security-keyed map; R8b the bookkeeping entry point gets only that security\'s '
-            'rows/opening position and no &mut state; R8c no process-global mutable state beyond three reviewed statics; R8d no data-dependent state is carried from one iteration of a per-security loop to the next and per-security data is never taken by position; R8f an Affiliate is only built inside the interning table. ' + PARTIAL % 'C08'),
+            'rows/opening position and no &mut state; R8c no process-global mutable state beyond three reviewed statics; R8d no data-dependent state is carried from one iteration of a per-security loop to the next and per-security data is never taken by position; R8f an Affiliate is only built inside the interning table; R8g that table is keyed by the parsed id; R8h no value derived from the whole transaction list is used inside a per-security loop. ' + PARTIAL % 'C08'),
     'C09': ('proof', 'hash-iteration-order taint + sort typestate + loop effect summaries over type-checked MIR; randomness-source census',
             'Every HashMap/HashSet iterator created in any product crate is followed to its consumers; each consumer is discharged '
             '(re-keyed, sorted before use, exact reduction, per-element-key update) or reported; stdout/file sinks only (stderr sinks are '
@@ -58,7 +58,7 @@ CHECKS = {
             'specifics field is carried; R11f one CSV writer for transactions; R11g-R11j the writers format losslessly, a commission currency is exported whenever present, no rate is compared by value, table cells reach the record untransformed, reader and writers use the default CSV dialect. ' + PARTIAL % 'C11'),
     'C12': ('other', 'inter-procedural field provenance of the look-up date + edge conditions (is_zero, is_some, == USD) + constant evaluation of the look-back range',
             'R12a the rate look-up date derives from CsvTx.trade_date on every chain; R12b a rate from the per-year map is returned only on the non-zero edge; '
-            'R12c the look-back is 7 iterations of minus one day ending in Err; R12d the loader runs only without an explicit rate and for USD; R12e the per-day map only holds loaded data; R12f the published-rate parser never compares a rate by size; R12g every downloaded observation is kept when a year is padded. ' + PARTIAL % 'C12'),
+            'R12c the look-back is 7 iterations of minus one day ending in Err; R12d the loader runs only without an explicit rate and for USD; R12e the per-day map only holds loaded data; R12f the published-rate parser never compares a rate by size; R12g every downloaded observation is kept when a year is padded; R12h a rate filled into a row derives from the loader\'s answer only. ' + PARTIAL % 'C12'),
     'C13': ('other', 'who-may-call chain of the remote download + symbolic enumeration of the guard paths (memoised / has-date / downloaded-this-run) + must-follow insert',
             'R13a one download site reached through one chain, entered only when the year is not memoised or not downloaded in this run, and followed by memoising the year (<= 1 download per year per run); '
             'R13b cached rates are returned only if the cache contains the requested date or the year was downloaded in this run; R13c the cache is not read when '
